@@ -1,0 +1,20 @@
+//go:build verif
+// +build verif
+
+package masswallet
+
+import "sync/atomic"
+
+type verifHookFn struct{ f func(name string) }
+
+var verifHook atomic.Value // verifHookFn
+
+// SetVerifPointHook installs the callback invoked at every verifPoint (nil removes it).
+// The callback may count, sleep or block: it is the harness's failpoint.
+func SetVerifPointHook(f func(name string)) { verifHook.Store(verifHookFn{f}) }
+
+func verifPoint(name string) {
+	if h, ok := verifHook.Load().(verifHookFn); ok && h.f != nil {
+		h.f(name)
+	}
+}
